@@ -579,8 +579,8 @@ def o_limits(w, tr):
             ev_head += iv
         elif c['op'] != 'AbortMultipartUpload':
             ev_data += iv
-            if not c['tname'].startswith('ex0'):
-                out.append(('C10:data-request-off-request-stage', f'{c["op"]} ran on thread {c["tname"]}'))
+            # (which thread issues a request is not part of the property - only the numbers are:
+            #  a structural clause "data requests run on request workers" was removed as unsound)
     mx = _intervals_max(ev_data)
     w.sched.user['max_data_inflight'] = mx
     if mx > cfg.max_request_concurrency:
@@ -631,13 +631,18 @@ def o_limits(w, tr):
                 out.append(('C10:writes-not-in-queue-order',
                             f'transfer {info["idx"]}: the stream received {_show(cat)}, which is not the order in which the writes were released '
                             f'({_show(info["expected"])}); writes={_writes(info)}'))
+    osu = getattr(w, 'osutil', None)
+    if osu is not None and getattr(osu, 'max_writers', 0) > 1:
+        out.append(('C10:concurrent-writes', f'{osu.max_writers} concurrent writes to one destination file'))
     io_sub = [e[3]['fut'] for e in tr.ev('ex.submit') if e[3]['ex'] == 'ex2']
     io_start = [e[3]['fut'] for e in tr.ev('ex.start') if e[3]['ex'] == 'ex2']
     if io_start != io_sub[:len(io_start)]:
         out.append(('C10:io-order', 'IO tasks started in an order different from the order they were queued'))
     ioex = [x for x in w.sched.user.get('executors', []) if x._name == 'ex2']
-    if ioex and ioex[0].max_running > 1:
-        out.append(('C10:io-threads', f'{ioex[0].max_running} IO tasks ran at once'))
+    if ioex:
+        # observation for the evidence only: the property bounds writers per destination
+        # (judged above), not the number of IO threads
+        w.sched.user['max_io_tasks_running'] = ioex[0].max_running
     for idx, oc in w.outcomes.items():
         if oc[0] == 'exc' and isinstance(oc[1], NoResourcesAvailable):
             out.append(('C10:no-resources', f'transfer {idx} failed with NoResourcesAvailable instead of blocking'))
@@ -926,11 +931,13 @@ def o_cancel(w, tr):
                 out.append(('C07:wrong-cancel-error',
                             f'transfer {idx} ended with {type(e).__name__}({str(e)!r}); entry points prescribe '
                             f'{[(t.__name__, m) for _, _, t, m in exps]}'))
-            if cancelled_from == 'not-started' and sw:
+            # "had not started": cancelled while its status was still not-started, or queued (its
+            # on_queued callbacks running) - the transfer never reached `running`
+            if cancelled_from in ('not-started', 'queued') and sw:
                 if calls:
                     out.append(('C07:requests-for-unstarted-transfer',
-                                f'transfer {idx} was cancelled before it started but issued {[c["op"] for c in calls]}'))
-                if any(ev[3]['tid'] == idx for ev in tr.ev('cb.queued')):
+                                f'transfer {idx} was cancelled before it started (status {cancelled_from}) but issued {[c["op"] for c in calls]}'))
+                if cancelled_from == 'not-started' and any(ev[3]['tid'] == idx for ev in tr.ev('cb.queued')):
                     out.append(('C07:on_queued-for-unstarted-transfer', f'transfer {idx}'))
         elif oc[0] == 'ok':
             pass        # success is admissible when the cancel raced completion; effect checked by o_exact
@@ -963,7 +970,7 @@ def o_fs(w, tr):
             oc = w.outcomes.get(idx)
             prev = info['t'].get('preexisting')
             prev_b = prev.encode() if isinstance(prev, str) else prev
-            name = f'dst{idx}'
+            name = info.get('name', f'dst{idx}')
             try:
                 with open(info['path'], 'rb') as f:
                     cur = f.read()
